@@ -37,7 +37,7 @@ CHECKS = {
     "C09": dict(
         engine="CreatePipeline",
         technique="TLC model checking (safety, deadlock, liveness) of spec/CreatePipeline.tla over all scenario classes and schedules, with five deviation configs; every scenario class instantiated through the input and replayed on the real Catalog.from_dataframe running on a deterministic fake multiprocessing runtime (random and depth-first-exhaustive schedules); C09 clauses evaluated on the real outcome and compared with TLC's terminal states; the event log of every run (queue puts/gets with record ids, process spawn/terminate/join/exit codes, pool.map calls and task failures, terminal state) validated step by step by TLC against spec/CreatePipelineTrace.tla",
-        text="CreatePipeline.tla models sequential and multiprocessing catalog creation step by step (reader faults at any chunk, pool tasks putting parts on the queue, writer process init/get/finalise, context-manager exits, join, load) for every combination of length, chunk size, 1-3 workers, pre-existing path (absent, catalog, foreign directory, file, missing parent), overwrite flag, fault chunk, fault location (reader, pool worker, writer process) and empty centre; TLC proves FailStop, no hang (deadlock + liveness), UntouchedWithoutOverwrite, OnlyCatalogsDeleted, NoOpenableDirAfterFailure and ExactOnSuccess for the design and reproduces each defect of the code as found from a deviation flag. Each scenario class is run on the real library with faults injected through the input (NaN/inf cells, patch ids out of range, missing column, centre without objects) or, for faults inside a pool worker / the writer process, by making split_into_patches / CatalogWriter.process_patches raise at the marked record, under several schedules of the fake multiprocessing runtime (all schedules for the smallest scenarios); exception / exact deadlock / returned records, a byte-level snapshot of the path before and after, and what Catalog(path) opens afterwards decide the clauses. In the other direction the runtime's event log of each of these runs is checked by TLC against CreatePipelineTrace.tla (every put must be a whole part of the current chunk, every get the queue head, exit codes and the terminal state must be the spec's); corrupted copies (a record dropped from a part, a get removed, outcome flipped) must be rejected.",
+        text="CreatePipeline.tla models sequential and multiprocessing catalog creation step by step (reader faults at any chunk, pool tasks putting parts on the queue, writer process init/get/finalise, context-manager exits, join, load) for every combination of length, chunk size, 1-3 workers, pre-existing path (absent, catalog, foreign directory, file, missing parent), overwrite flag, fault chunk, fault location (reader, pool worker, writer process) and empty centre; TLC proves FailStop, no hang (deadlock + liveness), UntouchedWithoutOverwrite, OnlyCatalogsDeleted, NoOpenableDirAfterFailure and ExactOnSuccess for the design and reproduces each defect of the code as found from a deviation flag. Each scenario class is run on the real library with faults injected through the input (NaN/inf cells, patch ids out of range, missing column, centre without objects) or, for faults inside a pool worker / the writer process, by making split_into_patches / CatalogWriter.process_patches raise at the marked record, under several schedules of the fake multiprocessing runtime (all schedules for the smallest scenarios); exception / exact deadlock / returned records, a byte-level snapshot of the path before and after, and what Catalog(path) opens afterwards decide the clauses. In the other direction the runtime's event log of each of these runs is checked by TLC against CreatePipelineTrace.tla (every put must be a whole part of the current chunk, every get the queue head, exit codes and the terminal state must be the spec's); corrupted copies (a record dropped from a part, a get removed, outcome flipped) must be rejected. Fault kinds include a NaN in a floating-point patch index column, a KeyboardInterrupt while a chunk is fetched and HDF5 columns longer than the others with a chunk size dividing the common length.",
         note="The fake multiprocessing primitives (Pool.map tasks as cooperative threads, Manager().Queue, Process with fork-copy and terminate) stand in for real processes; the repaired life cycle was additionally exercised once with real processes. A hang is an exact deadlock of the runtime, never a timeout.",
         ref="DESIGN.md 3.3, 4 C09",
     ),
@@ -58,7 +58,7 @@ CHECKS = {
     "C08": dict(
         engine="CacheFS",
         technique="TLC model checking of spec/CacheFS.tla (one action per file-system syscall, Crash between any two, three machines: tree cache, catalog creation/overwrite, result-file triple); strace recordings of every real workload validated against CacheFSTrace by TLC (order of file operations); every syscall-prefix of every recording materialised and recovered with the real library",
-        text="CacheFS.tla states the protocols crash safety rests on (binning marker removed before and written after the trees; patch index appears atomically and last; overwrite removes the whole old catalog first) and TLC checks NeverWrongTrees, CatalogAllOrNothing, ResultsOneGeneration for every crash point and recovery; deviation flags reproduce the code as found. Each workload (create, overwrite an existing catalog, first metadata computation, tree build and rebuild with other edges / closed side / forced / unbinned, CorrFunc.to_file, CorrData.to_files, each over several prior disk states) runs once for real under strace; the recorded syscalls on the cache tree must be a behaviour of the spec (TLC, with a swapped-syscall trace rejected as binding demonstration). Then for EVERY prefix of the recorded syscalls the surviving tree is rebuilt (tree model with inode semantics, equal byte for byte to the real end state; cross-checked against real SIGKILLs in the thorough tier) and reopened / measured / read back with the real library: the outcome must be an error or equal the completed or the never-started state.",
+        text="CacheFS.tla states the protocols crash safety rests on (binning marker removed before and written after the trees; patch index appears atomically and last; overwrite removes the whole old catalog first) and TLC checks NeverWrongTrees, CatalogAllOrNothing, ResultsOneGeneration for every crash point and recovery; deviation flags reproduce the code as found. Each workload (create, overwrite an existing catalog, first metadata computation, tree build and rebuild with other edges / closed side / forced / unbinned, CorrFunc.to_file, CorrData.to_files, each over several prior disk states) runs once for real under strace; the recorded syscalls on the cache tree must be a behaviour of the spec (TLC, with a swapped-syscall trace rejected as binding demonstration). Then for EVERY prefix of the recorded syscalls the surviving tree is rebuilt (tree model with inode semantics, equal byte for byte to the real end state; cross-checked against real SIGKILLs in the thorough tier) and reopened / measured / read back with the real library: the outcome must be an error or equal the completed or the never-started state. A creation brought down by KeyboardInterrupt or SystemExit while any chunk is fetched (the library's context managers run, then the process is gone) is judged by the same rule.",
         note="Process death is modelled as 'the completed syscalls survive, user-space buffers are lost'; power failure and page-cache effects are out of scope. Workloads are single-process (max_workers=1).",
         ref="DESIGN.md 3.4, 4 C08",
     ),
@@ -86,14 +86,14 @@ CHECKS = {
     "C17": dict(
         engine="Containers",
         technique="TLC model checking of spec/Containers.tla (container algebra, indexing, compatibility on exact integers/rationals) with every enumerated history of public operations replayed step by step on the real classes",
-        text="TLC proves the laws of the property (sum, scalar, equality, selection commuting with sampling and addition, patch-sum, iteration = indexing, accept-iff-valid) on exact rationals for all explored scenarios and histories up to depth 2 (quick) or 3 (thorough). Every one of those histories is executed on the real PatchedCounts, PatchedSumWeights, NormalisedCounts, CorrFunc, SampledData/CorrData with result, outcome class and purity of all operands compared after each step. Deviation configs reproduce each defect of the code as found as a TLC counterexample that is replayed on the code. Exhaustive within the bounds: up to 4 bins x 4 patches, count values 0-2, weights 1-2, 13 scalar classes, all ints from -n-1 to n as Python ints and as numpy integer scalars (int64, int32, intp, an element of arange) and 11 slice forms; get_array accessors; sums of operands with the same shape but another normalisation (rejected); equality on containers holding NaN in both argument orders.",
+        text="TLC proves the laws of the property (sum, scalar, equality, selection commuting with sampling and addition, patch-sum, iteration = indexing, accept-iff-valid) on exact rationals for all explored scenarios and histories up to depth 2 (quick) or 3 (thorough). Every one of those histories is executed on the real PatchedCounts, PatchedSumWeights, NormalisedCounts, CorrFunc, SampledData/CorrData with result, outcome class and purity of all operands compared after each step. Deviation configs reproduce each defect of the code as found as a TLC counterexample that is replayed on the code. Exhaustive within the bounds: up to 4 bins x 4 patches, count values 0-2, weights 1-2, 13 scalar classes, all ints from -n-1 to n as Python ints and as numpy integer scalars (int64, int32, intp, an element of arange) and 11 slice forms; get_array accessors; sums of operands with the same shape but another normalisation (rejected); equality on containers holding NaN in both argument orders; in-place accumulation (x += y, t = 0; t += a; t += b) with both operands unchanged; the set_patch_pair mutator inside observe-edit-observe histories (every later observation is the one of the updated value).",
         note="Trusted: TLC, the projection and builders in harness/containers.py (validated by corrupted-expectation demonstrations), float comparison at 1e-9 relative (counts exact). Exception types, empty selections and 0/0 cases are not judged.",
         ref="DESIGN.md 3.6, 4 C17",
     ),
     "C04": dict(
         engine="Containers",
         technique="TLC model checking of spec/Containers.tla (estimator choice, normaliser, n(z) formula, normalisation integral on exact rationals) with every enumerated scenario replayed on the real CorrFunc.sample / RedshiftData / HistData, plus end-to-end runs on measured pair counts",
-        text="TLC checks NormaliserLaw (product of totals, half the squared total for auto, also for every leave-one-out sample), JackknifeShortcut, EstimatorLaw (Landy-Szalay with RD replaced by DR when missing, Davis-Peebles otherwise), RedshiftLaw and IntegralIsOne on exact rationals for all 7 member subsets x auto/cross x shapes x contents, and prints the expected value of every sample. Each scenario is built as real containers and CorrFunc.sample(), RedshiftData.from_corrfuncs/from_corrdata and normalised() are compared value by value and jackknife row by row; the same formulas are checked end-to-end on pair counts measured with crosscorrelate/autocorrelate for all random-catalog combinations. Member sets for which the property prescribes no formula accept 'formula or rejection'. The read accessors (get_array of every level, also through a CorrFunc's members) are an action of the model (exact rational arrays, GetArrayLaw) so that accessor-then-estimator histories are replayed and operand purity is compared after every step; scenarios include an empty redshift bin (NaN in real data containers).",
+        text="TLC checks NormaliserLaw (product of totals, half the squared total for auto, also for every leave-one-out sample), JackknifeShortcut, EstimatorLaw (Landy-Szalay with RD replaced by DR when missing, Davis-Peebles otherwise), RedshiftLaw and IntegralIsOne on exact rationals for all 7 member subsets x auto/cross x shapes x contents, and prints the expected value of every sample. Each scenario is built as real containers and CorrFunc.sample(), RedshiftData.from_corrfuncs/from_corrdata and normalised() are compared value by value and jackknife row by row; the same formulas are checked end-to-end on pair counts measured with crosscorrelate/autocorrelate for all random-catalog combinations. Member sets for which the property prescribes no formula accept 'formula or rejection'. The read accessors (get_array of every level, also through a CorrFunc's members) are an action of the model (exact rational arrays, GetArrayLaw) so that accessor-then-estimator histories are replayed and operand purity is compared after every step; scenarios include an empty redshift bin (NaN in real data containers); a finite real value where the property's formula is undefined (0/0) is a violation. The end-to-end runs compare the stored sums of weights with the totals computed from the catalogs' own records, with a patch that is empty in part of the redshift range.",
         note="Same trusted base as C17; the end-to-end reference evaluator is validated against TLC on every Sample case.",
         ref="DESIGN.md 3.6, 4 C04",
     ),
@@ -107,14 +107,14 @@ CHECKS = {
     "C03": dict(
         engine="Jackknife",
         technique="TLC model checking of spec/Jackknife.tla (sample_patch_sum step by step, weight-product matrix, ratio, estimator applied sample-wise, n(z), histogram resampling with pool schedules, covariance) against a from-scratch recomputation without patch k on exact rationals; every terminal behaviour replayed on the real containers/catalogs; measured pair counts validated by TLC (JackknifeTrace); end-to-end comparison with re-measurement after physically deleting patch k",
-        text="TLC exhaustively checks JackknifeIsLeaveOneOut, FrameUnchanged, covariance well-formedness and termination over every pair-count array of small domains (2-4 patches, 1-3 bins, any sparsity), all weight-product and normalised-count cases (auto and cross), pseudo-random data for all defined CorrFunc member sets and redshift-estimate combinations, every per-patch histogram with every feasible pool schedule, and operation histories of 2-3 calls on the same objects. Every explored state is executed on real containers and catalogs and .data, each .samples row, .covariance and .error are compared with the model's exact rationals; end-to-end runs compare each product with a re-measurement after physically deleting patch k; covariance and error of tightly clustered samples (offset 1e4..1e7 with tiny scatter, identical rows, gridded catalogs) are compared with the jackknife formula evaluated in exact rational arithmetic. Nine deviation configs must yield counterexamples, which are replayed on the code.",
+        text="TLC exhaustively checks JackknifeIsLeaveOneOut, FrameUnchanged, covariance well-formedness and termination over every pair-count array of small domains (2-4 patches, 1-3 bins, any sparsity), all weight-product and normalised-count cases (auto and cross), pseudo-random data for all defined CorrFunc member sets and redshift-estimate combinations, every per-patch histogram with every feasible pool schedule, and operation histories of 2-3 calls on the same objects. Every explored state is executed on real containers and catalogs and .data, each .samples row, .covariance and .error are compared with the model's exact rationals; end-to-end runs compare each product with a re-measurement after physically deleting patch k; covariance and error of tightly clustered samples (offset 1e4..1e7 with tiny scatter, identical rows, gridded catalogs) are compared with the jackknife formula evaluated in exact rational arithmetic; samples with an undefined entry must give an undefined covariance row and column; a histogram with one object of weight 1e18 must still leave the heavy patch out exactly. Nine deviation configs must yield counterexamples, which are replayed on the code.",
         note="Trusted: TLC, the driver's mapping of model integers to real objects, float comparison at 1e-9. Where the real statistic differs from the model (estimator / normalisation = C04's business) only the literal predicate 'sample k = the library's own statistic without patch k' decides. PSD-ness is a numeric eigvalsh side condition.",
         ref="DESIGN.md 3.5/3.6, 4 C03",
     ),
     "C11": dict(
         engine="Persist",
         technique="TLC model checking of spec/Persist.tla (write/read step machines of the five persistence paths over the enumerated structural case space, 15 deviation configs) + replay of every TLC terminal behaviour on the real to_file/from_file (to_files/from_files, Catalog(cache)) with projection of the real file onto the abstract file and a member-wise round-trip oracle",
-        text="Persist.tla models CorrFunc through HDF5 (group per member, sparse pair storage), Configuration through YAML (custom-edges branch vs regeneration from zmin/zmax/num_bins/method/cosmology), CorrData/RedshiftData/HistData through the fixed-width text triple (loadtxt shape rule, decimals surviving the width-10 format), patch Metadata through YAML and a Catalog through its cache directory as write and read step sequences over an abstract file. TLC checks RoundTrip for every member subset x auto x bins x patches x 13 count patterns (all-zero, sparse, cancelling, negative, NaN, +-inf), every method x closed x unit x scale list x z-range x num_bins x weighting x cosmology incl. modified configurations, every class x bins >= 1 x samples x value class, for a single write and a write over a prior object; each named deviation must yield a counterexample. Every enumerated behaviour (4.4k quick, 45k thorough) is executed on the real library: the real file must project onto the model's file and the object read back must equal the original member by member (NaN-aware, bit-exact; text values to the precision computed by the spec; sample() and scale angles identical).",
+        text="Persist.tla models CorrFunc through HDF5 (group per member, sparse pair storage), Configuration through YAML (custom-edges branch vs regeneration from zmin/zmax/num_bins/method/cosmology), CorrData/RedshiftData/HistData through the fixed-width text triple (loadtxt shape rule, decimals surviving the width-10 format), patch Metadata through YAML and a Catalog through its cache directory as write and read step sequences over an abstract file. TLC checks RoundTrip for every member subset x auto x bins x patches x 13 count patterns (all-zero, sparse, cancelling, negative, NaN, +-inf), every method x closed x unit x scale list x z-range x num_bins x weighting x cosmology incl. modified configurations, every class x bins >= 1 x samples x value class, for a single write and a write over a prior object; each named deviation must yield a counterexample. Every enumerated behaviour (4.4k quick, 45k thorough) is executed on the real library: the real file must project onto the model's file and the object read back must equal the original member by member (NaN-aware, bit-exact; text values to the precision computed by the spec; sample() and scale angles identical); every third text product is written to a prefix whose name contains a dot.",
         note="Each value class is instantiated by one concrete float (seeded variation in the thorough tier), behaviour assumed uniform within a class; h5py, PyYAML and numpy I/O are trusted; files are read back in the same process.",
         ref="DESIGN.md 3.6, 4 C11",
     ),
